@@ -20,6 +20,22 @@ size_t g_b;                /* watched byte index for memcpy */
 size_t g_names_from_table, g_names_literal;
 size_t g_langobj;          /* object id of the language table */
 #define OBJ(p) __CPROVER_POINTER_OBJECT(p)
+/* ---- agreement with the tables (the tables themselves stay abstract) ----
+ * Strings are compared through their IDENTITY.  The pointer fields of the abstract tables are arbitrary values, so the
+ * pointer value itself serves as the identity of a table string (equal text = equal value; every assignment of
+ * identities to the table slots, i.e. every table contents up to equality of strings, is covered); g_lang_id / g_ctry_id are the identities of the
+ * language and the country part of the input; g_buf_id is the identity of what the 64-byte buffer holds, maintained by
+ * the memcpy model (the buffer holds exactly the copied text iff the byte after it is 0 when the copy is made).
+ * strcmp(a, buffer) == 0 iff sid(a) == g_buf_id. */
+#define SID(p) ((const char *)(p))
+const char *g_lang_id, *g_ctry_id, *g_buf_id;   /* identities are pointer values, only ever compared for equality */
+const char *nondet_cptr(void);
+size_t g_w, g_c;           /* a watched language-table index, a watched country-table index */
+_Bool g_w_seen; size_t g_w_pos;   /* the name of entry g_w was put into the result list at this position */
+size_t g_last_idx;         /* the language-table entry that was listed last */
+_Bool g_last_match;        /* ... and its code or its name was the language part when it was listed */
+_Bool g_w_codem, g_w_namem, g_c_match;   /* CODEM(g_w), NAMEM(g_w), CMATCH(g_c): bound in the contract (no calls in loop invariants) */
+#define PARTEND (g_has_dot ? g_dot : g_len)
 static size_t verif_strlen(const char *s) {
   __CPROVER_assert(OBJ(s) == g_sobj && __CPROVER_POINTER_OFFSET(s) == 0, "strlen model covers the input string");
   return g_len;
@@ -34,23 +50,40 @@ static char *verif_strstr(const char *h, const char *n) {
 }
 /* memcpy: real precondition (both ranges inside their objects, no negative/huge length); destination bytes become
  * nondeterministic except the watched byte */
+size_t nondet_sizet(void);
 static void *verif_memcpy(void *dst, const void *src, size_t n) {
   __CPROVER_assert(n <= (size_t)1 << 62, "C19 memcpy length is not a negative number converted to size_t");
   if (n > 0) {
     __CPROVER_assert(__CPROVER_w_ok(dst, n), "C19 memcpy stays inside the destination buffer");
     __CPROVER_assert(__CPROVER_r_ok(src, n), "C19 memcpy stays inside the source string");
+  }
+  /* what the buffer holds afterwards: exactly the copied text iff the byte after it is 0 (the buffer is all zero from
+   * its initialiser / from memset when the real code makes its two copies) */
+  {
+    _Bool exact = n < 64 && __CPROVER_r_ok(dst, n + 1) && ((char *)dst)[n] == 0;
+    size_t off = __CPROVER_POINTER_OFFSET(src); const char *id = nondet_cptr();
+    if (OBJ(src) == g_sobj && g_has_us && off == 0 && n == g_us) id = g_lang_id;
+    if (OBJ(src) == g_sobj && g_has_us && off == g_us + 1 && PARTEND > g_us && n == PARTEND - g_us - 1) id = g_ctry_id;
+    g_buf_id = exact ? id : nondet_cptr();
+  }
+  if (n > 0) {
     __CPROVER_havoc_slice(dst, n);
     if (g_b < n) ((char *)dst)[g_b] = ((const char *)src)[g_b];
   }
   return dst;
 }
 /* strcmp of a table string (a) with the 64-byte buffer (b).  Preconditions: a is a valid string (a table literal),
- * b is NUL-terminated inside its 64 bytes.  The RESULT is left nondeterministic: the contract of get() below is
- * about safety, totality and the shape of the answer, which must hold whatever the comparisons say; agreement of the
- * chosen entry with the text is not decided by this check (stated in DESIGN.md). */
+ * b is NUL-terminated inside its 64 bytes.  The result is 0 exactly when the two strings have the same identity. */
 static int verif_strcmp(const char *a, const char *b) {
   __CPROVER_assert(__CPROVER_r_ok(b, 64) && b[63] == 0, "C19 the buffer passed to strcmp is NUL-terminated");
-  int r; return r;
+  int r; if (SID(a) == g_buf_id) r = 0; else __CPROVER_assume(r != 0);
+  return r;
+}
+/* strncmp: equal identities compare equal; otherwise a prefix may still match */
+static int verif_strncmp(const char *a, const char *b, size_t n) {
+  __CPROVER_assert(__CPROVER_r_ok(b, 64) && b[63] == 0, "C19 the buffer passed to strncmp is NUL-terminated");
+  int r; if (SID(a) == g_buf_id) r = 0;
+  return r;
 }
 #define verif_fprintf(...) ((void)0)
 #define strlen(s) verif_strlen(s)
@@ -61,12 +94,7 @@ static void StrList__ctor_default(struct StrList *l) { l->len = 0; }
 static void StrList__dtor(struct StrList *l) { }
 static void StrList__ctor_move(struct StrList *l, struct StrList *o) { *l = *o; o->len = 0; }
 static struct StrList *StrList__op_assign(struct StrList *l, struct StrList *o) { *l = *o; o->len = 0; return l; }
-static char **StrList__emplace_back__char_ptr_const(struct StrList *l, char **v) {
-  __CPROVER_assert(l->len < LIST_CAP, "list model capacity");
-  __CPROVER_assert(OBJ(v) == g_langobj, "C19 every language name returned refers to an entry of the language table");
-  l->items[l->len] = *v; g_names_from_table++;
-  return &l->items[l->len++];
-}
+static char **StrList__emplace_back__char_ptr_const(struct StrList *l, char **v);   /* specs/li_mid.h: needs the entry type */
 static char **StrList__emplace_back__char_arr(struct StrList *l, void *v) {
   __CPROVER_assert(l->len < LIST_CAP, "list model capacity");
   l->items[l->len] = (char *)v; g_names_literal++;
